@@ -62,8 +62,7 @@ package obfs4
 //@   loop 1 invariant [C10:decoded_bound] len(conn.receiveDecodedBuffer.content) - len(D0) <= len(R0) - len(conn.receiveBuffer.content)
 //@   loop 1 invariant err == nil
 //@   loop 1 decreases len(conn.receiveBuffer.content)
-//@   assert_at bytes.Buffer).Write [C05:validated_before_surface] arg0 == conn.receiveDecodedBuffer && pktType == 0 && err == nil && base(arg1) == &decoded && offset(arg1) == 3 && len(arg1) == payloadLen && payloadLen <= decLen - 3 && payloadLen > 0
-//@   assert_at bytes.Buffer).Write [C06:payload_is_exactly_the_declared_length] arg0 == conn.receiveDecodedBuffer && pktType == 0 && err == nil && base(arg1) == &decoded && offset(arg1) == 3 && len(arg1) == payloadLen && payloadLen <= decLen - 3 && payloadLen > 0
+//@   assert_at bytes.Buffer).Write [C05,C06:validated_before_surface] arg0 == conn.receiveDecodedBuffer && pktType == 0 && err == nil && base(arg1) == &decoded && offset(arg1) == 3 && len(arg1) == payloadLen && payloadLen <= decLen - 3 && payloadLen > 0
 //@   assert_at WeightedDist).Reset [C09:client_adopts_seed] !conn.isServer && pktType == 1 && len(payload) == 24
 //@   ensures [C01:no_stranded_frame] err == nil || err == framing.ErrAgain ==> needMore(conn.decoder, conn.receiveBuffer)
 //@   ensures [C05:errors_surface] err == nil ==> len(conn.receiveBuffer.content) == 0
